@@ -348,23 +348,59 @@ def execute(plan: Dict[str, Any]) -> Dict[str, Any]:
                     shape = (2, 2, m // 4)
                     xin = xt[:m].reshape(shape)
                     probe("rank3_inputs")
-                x_before = xin.clone()
+                src = list(range(m))  # flat position in xin -> index into xt
+                if layout == 3 and m >= 4:
+                    # an expanded (stride-0) view: every element appears twice, each occurrence
+                    # with its own draw
+                    h2 = m // 2
+                    shape = (2, h2)
+                    xin = xt[:h2].unsqueeze(0).expand(2, h2)
+                    src = list(range(h2)) * 2
+                    r = r[: 2 * h2]
+                    probe("expanded_inputs")
+                if op["iseed"] % 5 == 0:
+                    xin = xin.clone().requires_grad_() if layout != 3 else xin
+                    probe("requires_grad_inputs", int(xin.requires_grad))
+                x_before = xin.detach().clone()
                 seam.keyed = r
                 seam.requests.clear()
                 try:
-                    out = fmt.quantise(xin).reshape(-1)
+                    out = fmt.quantise(xin).detach().reshape(-1)
                 except SeamShape as e:
                     raise Violation("independent_draws", "draw_shape_differs_from_input",
                                     f"input shape {shape}, random request shape {e.args[0]}")
                 if len(seam.requests) != 1 or seam.requests[0][2] != shape:
                     raise Violation("independent_draws", "draw_shape_differs_from_input",
                                     f"input shape {shape}, requests {seam.requests}")
-                for i in range(min(m, 24)):
+                # the two autograd wrappers are the same rounding under the same draws (this is how
+                # the format simulation reaches it): forward value of quantise_fwd, gradient of
+                # quantise_bwd
+                seam.keyed = r
+                seam.requests.clear()
+                via_fwd = fmt.quantise_fwd(xin.detach()).detach().reshape(-1)
+                if not torch.equal(via_fwd, out):
+                    i = int((via_fwd != out).nonzero()[0][0]) if via_fwd.shape == out.shape else 0
+                    raise Violation("probability", "quantise_fwd_rounds_differently",
+                                    f"E{E}M{M} srbits={srbits} x={float(x[src[i]])!r} draw={int(r[i])}: quantise -> {float(out[i])!r}, "
+                                    f"quantise_fwd -> {float(via_fwd[i])!r} (format #{fi} of this process)")
+                seam.keyed = r
+                seam.requests.clear()
+                leaf = torch.zeros(shape, requires_grad=True)
+                fmt.quantise_bwd(leaf).backward(xin.detach().clone())
+                via_bwd = leaf.grad.reshape(-1)
+                if not torch.equal(via_bwd, out):
+                    i = int((via_bwd != out).nonzero()[0][0])
+                    raise Violation("probability", "quantise_bwd_rounds_differently",
+                                    f"E{E}M{M} srbits={srbits} g={float(x[src[i]])!r} draw={int(r[i])}: quantise -> {float(out[i])!r}, "
+                                    f"gradient through quantise_bwd -> {float(via_bwd[i])!r} (format #{fi} of this process)")
+                probe("autograd_wrappers_compared")
+                npos = len(src) if layout == 3 else min(m, 24)
+                for i in (list(range(min(npos, 12))) + list(range(max(npos - 12, 12), npos))):
                     seam.keyed = r[i:i + 1]
-                    one = fmt.quantise(xt[i:i + 1])
+                    one = fmt.quantise(xt[src[i]:src[i] + 1])
                     if not torch.equal(one.reshape(()), out[i]):
                         raise Violation("independent_draws", "element_depends_on_neighbours",
-                                        f"E{E}M{M} x={float(x[i])!r} draw={int(r[i])}: alone {float(one)!r}, in tensor {float(out[i])!r}")
+                                        f"E{E}M{M} x={float(x[src[i]])!r} draw={int(r[i])}: alone {float(one)!r}, in tensor {float(out[i])!r}")
                 log.add("keyed", core.tensor_digest(out))
     except Violation as v:
         res["violation"] = v.as_dict()
